@@ -391,6 +391,8 @@ fn has_fmt_write(sc: &Scenario) -> bool {
 }
 
 fn run_scenario<C: Autocomplete + Help>(sc: &Scenario, rep: &mut Report, args: &Args, case: u64) {
+    // which error kind (Other, Interrupted, TimedOut, ...) goes with which failing call rotates with the scenario and the seed
+    crate::sink::set_kind_shift((case as usize).wrapping_add(args.seed as usize));
     let ff = fault_free::<C>(sc);
     rep.count("c14.scenarios");
     rep.count_n("c14.positions", 2 * (ff.c1 - ff.c0) as u64);
